@@ -235,3 +235,32 @@ def unit_mineral_elements(twin=False):
     r.assumptions += ["elt_list holds the elements of the mineral's (or the alternative) formula with their coefficients (get_elts_in_species, not under this contract)",
                       "the REWRITE case (master rewritten to another mole balance) is searched by an inner loop that is not pinned here", "error_msg(..., STOP) does not return"]
     return r
+
+
+def unit_model_inert_bracket(twin=False):
+    """Phreeqc::model: the amounts of precipitate_only phases that set_inert_moles parks at the start are given back (unset_inert_moles) on
+    every path that returns - ion-association, Pitzer and SIT alike - exactly once, after the solve"""
+    MODEL = "src/phreeqcpp/model.cpp"
+    q = "Phreeqc::model"
+    fn = A.find_function(MODEL, q)
+    r = U.new_unit("C03.model.parked_amounts_given_back_on_every_return", MODEL, q, fn)
+    loops = [x for x in A.walk(fn) if x.get("kind") in ("ForStmt", "WhileStmt", "DoStmt")]
+    c = stop_on_error_msg(ctx(functional=()))
+    f, ex, fin, info = U.run_function(MODEL, q, modes={i: "havoc" for i in range(len(loops))}, ctx=c)
+    n = 0; solvers = set()
+    for s in fin:
+        if s.status != "ret":
+            continue
+        n += 1
+        names = [e.name.split("::")[-1] for e in s.events]
+        br = [x for x in names if x in ("set_inert_moles", "unset_inert_moles")]
+        want = ["set_inert_moles", "unset_inert_moles"] if not twin else ["set_inert_moles"]
+        r.add("return#%d.parked_once_and_given_back_once" % n, DISCHARGED if br == want else FAILED, "trace", 0, repr(br))
+        for sv in ("model_pz", "model_sit"):
+            if sv in names:
+                solvers.add(sv)
+                ok = "unset_inert_moles" in names and names.index(sv) < names.index("unset_inert_moles")
+                r.add("return#%d.given_back_after_%s" % (n, sv), DISCHARGED if ok else FAILED, "trace", 0, "")
+    r.add("reach.returns_of_all_three_models", DISCHARGED if n >= 3 and solvers == {"model_pz", "model_sit"} else UNDECIDED, "symex", 0, "%d returns, %r" % (n, sorted(solvers)), kind="vacuity")
+    r.assumptions += ["the iteration loops of model() are havocked (they do not call set_/unset_inert_moles: a call inside them would appear as an unmatched event and fail)", "paths ending in error_msg(STOP) do not return"]
+    return r
